@@ -83,7 +83,7 @@ def run(ctx):
     nrand = 0
     for i in range(4 if quick else 40):
         out = os.path.join(ctx.work, "js_rand_%d.ndjson" % i)
-        s = run_json([vh, "json-emit", "--seed", str(ctx.seed * 100 + i), "--docs", "120" if quick else "600", "--out", out])
+        s = run_json([vh, "json-emit", "--seed", str(ctx.seed * 100 + i), "--docs", "120" if quick else "600", "--out", out] + (["--long", "1"] if i == 0 else []))
         nrand += s["strings"]
         batches.append(out)
     res = validate_batches(ctx, "Trace_Json", batches, jobs=12, timeout=6000)
